@@ -80,7 +80,7 @@ RULE = ('each run = one seeded history of 2..8 operations on a Message or Segmen
 
 
 def required_probes(tier):
-    return ['c04_errors_form', 'c04_raise_with_errors', 'c04_raise_valid', 'c04_report_exact', 'c04_report_nonempty',
+    return ['c04_errors_form', 'c04_raise_with_errors', 'c04_raise_valid', 'c04_report_exact', 'c04_report_nonempty', 'c04_report_over_stale_file',
             'c04_report_fault_fired', 'c04_valid_state', 'c04_invalid_state', 'c04_verdict_checked', 'c04_predicted_defect_missing',
             'c04_predicted_defect_exceeded', 'c04_conforming_state_checked', 'c04_order_run_mixed_references',
             'c04_selfassign_checked', 'c04_selfassign_profile', 'c04_force_validation_parse', 'c04_unknown_element_present',
